@@ -133,6 +133,10 @@ type world struct {
 	srcMu sync.Mutex
 	src   map[string]*simfs.FS
 	snaps map[string]*snapModel // acknowledged snapshots still expected to exist
+	// C04: plant markers in generated contents and names
+	markers      bool
+	markerList   [][]byte
+	keepMonitors []func(simbe.Mutation, []byte)
 }
 
 type proc struct {
@@ -409,7 +413,26 @@ var baseTime = time.Date(2015, 3, 4, 5, 6, 7, 0, time.UTC)
 
 func (w *world) newFile(name string, size int, kind int) *simfs.Node {
 	w.inode++
-	return &simfs.Node{Name: name, Mode: 0o644, Data: hk.Content(w.st, size, kind), MTime: baseTime.Add(time.Duration(w.inode) * time.Second), Inode: 100 + w.inode, Links: 1, UID: 1000, GID: 1000}
+	data := hk.Content(w.st, size, kind)
+	if w.markers {
+		// a high-entropy marker in the name and (if it fits) in the content
+		mk := w.newMarker()
+		name = name + "-" + string(mk)
+		if len(data) >= 2*len(mk) {
+			copy(data[len(data)/3:], mk)
+		}
+	}
+	return &simfs.Node{Name: name, Mode: 0o644, Data: data, MTime: baseTime.Add(time.Duration(w.inode) * time.Second), Inode: 100 + w.inode, Links: 1, UID: 1000, GID: 1000}
+}
+
+func (w *world) newMarker() []byte {
+	const alphabet = "abcdefghijklmnopqrstuvwxyzABCDEFGHIJKLMNOPQRSTUVWXYZ0123456789"
+	mk := make([]byte, 24)
+	for i := range mk {
+		mk[i] = alphabet[w.st.Intn(len(alphabet))]
+	}
+	w.markerList = append(w.markerList, mk)
+	return mk
 }
 
 func (w *world) newDir(name string) *simfs.Node {
